@@ -3,7 +3,7 @@
 # check, undo it. A check that exits non-zero or prints VIOLATION on such a tree is a false alarm.
 V="$(cd "$(dirname "$0")/.." && pwd)"; REPO="${REPO:-/repo}"; export REPO
 for d in "$@"; do
-  for p in "$d"/r*.diff; do
+  for p in $(ls "$d"/r*.diff | xargs -n1 realpath); do
     git -C "$REPO" diff --quiet || { echo "$REPO dirty"; exit 2; }
     git -C "$REPO" apply "$p" || { echo "$p does not apply"; continue; }
     R=$("$V/run_all.sh" quick 2>&1)
